@@ -318,6 +318,25 @@ def main():
             broken.append("audit: " + e)
         axioms_seen = aud["theorems"]
         discharged = len([t for t in theorems if t in aud["theorems"]]) if not aud["errors"] else 0
+    # thorough tier: independent re-check of the compiled property file and everything it depends on
+    coqchk_info = None
+    if tier == "thorough" and proof_ok:
+        rc_c, out_c = sh(["coqchk", "-o", "-silent", "-Q", ".", "FV", "FV.Properties.%s" % pid], cwd=COQ,
+                         timeout=P.get("coqchk_timeout", 2400), mem_gb=12)
+        if rc_c == 124:
+            coqchk_info = {"status": "timeout (not counted)"}
+            notes.append("coqchk timed out; kernel re-check not completed on this run")
+        elif rc_c != 0:
+            coqchk_info = {"status": "failed", "output": out_c[-800:]}
+            broken.append("coqchk rejected Properties/%s.vo: %s" % (pid, out_c[-400:]))
+        else:
+            ax = re.search(r"\* Axioms:\s*(.*?)\n\s*\n", out_c, re.S)
+            axs = ax.group(1).strip() if ax else "?"
+            coqchk_info = {"status": "ok", "axioms": axs}
+            if axs != "<none>":
+                extra = [a for a in re.findall(r"[\w.']+", axs) if a not in set(P.get("allowed_axioms", []))]
+                if extra:
+                    broken.append("coqchk reports axioms outside the allow-list: %s" % axs[:300])
     closure = coq_closure(["Properties/%s.v" % pid] + [t[:-1] for t in P.get("coq_targets", [])]
                           + ([P["run_vo"][:-1]] if P.get("run_vo") else []))
     hyg = hygiene(closure)
@@ -428,6 +447,7 @@ def main():
             "open_statements": P.get("open_statements", []),
             "gen_files": gen_info,
             "coq_files": closure,
+            "coqchk": coqchk_info,
             "evaluations": (meta["cases"] + meta.get("oracle_evaluations", 0)) if meta else 0,
             "distinct_nontrivial": corr["distinct_nontrivial"],
             "rule": P.get("rule", ""),
